@@ -25,7 +25,7 @@ EXPLANATION = (
 NOT_DECIDED = ["bytes identical to the embedded file; content type; pixel size", "that no image is invented (relationship parsing is value level)", "which image records a reader filters out or reuses by identity (orphan relationships, per-document caches keyed by object number)"]
 TRUSTED = ["may-raise table (listed in the explanation); string methods, slicing, dataclass constructors and the dimension sniffers are assumed not to raise",
            "CFG path enumeration (cap 4096 paths per loop body; a capped loop is residual)"]
-FLOORS = {"C14-JPEG": 8, "C14-PAIR": 12, "C14-BYTES": 20, "C14-VIEW": 6, "C14-REF": 1, "C14-CHAIN": 8, "C14-TYPE": 3}
+FLOORS = {"C14-JPEG": 8, "C14-PAIR": 12, "C14-BYTES": 20, "C14-VIEW": 6, "C14-REF": 1, "C14-CHAIN": 8, "C14-TYPE": 3, "C14-HEX": 3}
 
 MAY_RAISE_CALLS = {"read_bytes", "get_image_data", "read_xml_root", "read_text", "read", "open_stream", "fromhex", "unpack", "unpack_from", "b64decode", "a2b_hex", "unhexlify", "decompress"}
 MAY_RAISE_FUNCS = {"int", "float", "bytes.fromhex", "struct.unpack", "struct.unpack_from", "base64.b64decode"}
@@ -532,4 +532,37 @@ def rule_type(ctx: Ctx) -> RuleReport:
     return rep
 
 
-RULES = [rule_pair, rule_bytes, rule_view, rule_ref, rule_jpeg, rule_chain, rule_type]
+def rule_hex(ctx: Ctx) -> RuleReport:
+    """RTF pictures: the hex data of a \\pict group is wrapped over many lines by every writer; the pattern that picks it up and the
+    decoding step together must return all of it. The folded pattern is evaluated over a finite table of layouts."""
+    import re as _re
+
+    RTF = X + "ms_legacy/rtf_extractor.py"
+    rep = RuleReport("C14-HEX", "RTF picture data: the hex-data pattern, evaluated on {one line, CRLF every 64, LF every 128} x {after a numeric control word}, captures the whole data and nothing of the control words")
+    m_ = ctx.p.module(RTF)
+    node = m_.assigns.get("_RE_HEX_DATA")
+    if not (isinstance(node, ast.Call) and (dotted(node.func) or "") == "re.compile" and node.args):
+        raise AnalysisError("C14-HEX: _RE_HEX_DATA is no longer a re.compile(...) constant")
+    pat = ctx.folder.fold(m_, node.args[0])
+    if not isinstance(pat, str):
+        raise AnalysisError("C14-HEX: the hex-data pattern is not a constant")
+    ex = ctx.p.func(RTF, "_RtfParser._extract_images")
+    rep.unit(ex.key)
+    strips_ws = any(isinstance(c, ast.Call) and (dotted(c.func) or "") == "bytes.fromhex" and any(isinstance(x, ast.Call) and isinstance(x.func, ast.Attribute) and x.func.attr in ("split", "sub", "replace", "translate") for x in ast.walk(c)) for c in ast.walk(ex.node))
+    rx = _re.compile(pat)
+    hx = (bytes.fromhex("89504e470d0a1a0a") + bytes(range(120))).hex()
+    for lname, sep, step in (("one line", "", len(hx)), ("CRLF every 64 digits", "\r\n", 64), ("LF every 128 digits", "\n", 128)):
+        body = sep.join(hx[i:i + step] for i in range(0, len(hx), step))
+        content = "\\pngblip\\picw10\\pich10 " + sep + body
+        mm = rx.search(content)
+        got = "".join(mm.group(1).split()) if mm else ""
+        if got == hx and (sep == "" or strips_ws):
+            rep.ok({"layout": lname, "captured": "all of the data"})
+        elif got == hx:
+            rep.fail(Finding("C14-HEX", RTF, ex.qual, "wrapped data not joined before bytes.fromhex", "the pattern captures wrapped hex data but the line breaks are not removed before decoding", line=ex.node.lineno))
+        else:
+            rep.fail(Finding("C14-HEX", RTF, "_RE_HEX_DATA", f"{lname}: captured {len(got)} of {len(hx)} digits", f"for picture data laid out as `{lname}` the pattern `{pat}` captures {len(got)} of {len(hx)} hex digits" + (" (it starts inside the preceding control word)" if len(got) > len(hx) else ": the picture is cut at the first line break, as Word and LibreOffice write it"), line=node.lineno))
+    return rep
+
+
+RULES = [rule_pair, rule_bytes, rule_view, rule_ref, rule_jpeg, rule_chain, rule_type, rule_hex]
